@@ -48,7 +48,6 @@ package storage
 //@   ensures [C08.trunc_keep_has_header] err == nil && result1 ==> len(result0.Bytes) >= 61 && len(result0.Bytes) <= len(batch)
 //@   ensures [C08.trunc_flags] err == nil ==> (result1 || result2) && (gkept != -1 ==> result1 && result2)
 //@   ensures [C08.trunc_uncut_batch_unchanged] err == nil && result1 && gkept == -1 ==> len(result0.Bytes) == len(batch) && forall j Int :: 0 <= j && j < len(batch) ==> result0.Bytes[j] == old(batch[j])
-//@   ensures [C08.trunc_error_returns_nothing] err != nil ==> !result1 && !result2
 
 // ---- collectRecoverableBatches: the frames of a segment body are examined in order, from the start, without gaps; each is handed
 // to truncateRecordBatchToTimestamp as a private copy with the same cut-off; what it keeps is appended in that order; nothing after
